@@ -50,6 +50,7 @@ open Srtla Srtla.Sys Srtla.Link Srtla.Conn Srtla.Select
 set_option linter.unusedSectionVars false
 
 variable {F : Type} [Scalar F]
+variable {fa : List (Nat × Nat)}
 
 /-- A datagram. -/
 abbrev Bytes := List UInt8
@@ -69,7 +70,7 @@ with the link's conn id and never a modified byte — or nothing at all, and tha
 empty or a send failure was pending for this conn id (then the injection is consumed and `ok = false`).
 The queue is empty afterwards in every case. -/
 theorem C01_send_connection_batch (l : FLink F) (now : Nat) (fn : List Nat) :
-    let r := sendConnectionBatch l now fn
+    let r := sendConnectionBatch fa l now fn
     r.1.queue = [] ∧ r.1.core.connId = l.core.connId ∧
     ((r.2.1 = (l.queue.map (·.1)).map (fun x => (l.core.connId, x)) ∧ r.2.2.1 = true ∧ r.2.2.2 = fn) ∨
      (r.2.1 = [] ∧ r.2.2.1 = false ∧ l.queue ≠ [] ∧ l.core.connId ∈ fn ∧ r.2.2.2 = fn.erase l.core.connId)) := by
